@@ -58,6 +58,11 @@ class Engine(ValueOps, ExprOps, CallOps, StmtOps):
         self.schema = schema
         self.contracts = contracts
         self.spec_funcs = spec_funcs or {}
+        self.spec_direct = {}       # recursive spec function -> heap keys its body reads ('attr@Family', 'SEQ', 'DICT')
+        self.spec_calls = {}        # recursive spec function -> recursive spec functions it applies
+        self.spec_seen = set()
+        self.spec_gen = 0
+        self.spec_stack = []
         self.no_inline = set()
         self.hook_guards = []
         self.init_const_cache = {}
@@ -76,6 +81,7 @@ class Engine(ValueOps, ExprOps, CallOps, StmtOps):
                 pass
         self.spec_mode = False
         self.read_log = None
+        self.spec_stack = []
         self.old_state = None
         self.ctx_stack = []
         self.loop_ord_stack = []
@@ -280,36 +286,105 @@ class Engine(ValueOps, ExprOps, CallOps, StmtOps):
         try:
             if not sf.rec:
                 return self.spec_apply(fd, full, sf.ret)
-            vers = '_'.join(str(st.heapver.get(a, 0)) for a in sf.reads)
-            fname = 'sf_%s%s' % (name, ('_h' + vers) if sf.reads else '')
+            # the heaps the function depends on are inferred from its body (and from the functions it applies); the
+            # application term is indexed by their versions, so one term never stands for values in two heap states
+            sig = (name, tuple((a.kind, a.ty) for a in full))
+            if sig not in self.spec_seen:
+                self.spec_seen.add(sig)
+                self.discover_reads(name, fd, full, sf)
+            caller = self.spec_stack[-1] if self.spec_stack else None
+            if caller is not None and name not in self.spec_calls.setdefault(caller, set()):
+                self.spec_calls[caller].add(name)
+                self.spec_gen += 1
+            reads = self.reads_of(name)
+            outer_log = getattr(self, 'read_log', None)
+            if outer_log is not None:
+                outer_log |= reads
+            import hashlib
+            vers = ';'.join('%s=%d' % (k, st.version_of(k)) for k in sorted(reads))
+            fname = 'sf_%s%s' % (name, ('_h' + hashlib.sha1(vers.encode()).hexdigest()[:8]) if any(st.version_of(k) for k in reads) else '')
             rsort = SORT_OF.get(sf.ret, 'Int' if sf.ret.startswith('seq') else 'Val')
             st.decls.fun(fname, ['Val'] * len(params), rsort)
             app = "(%s %s)" % (fname, ' '.join(self.box(a) for a in full)) if full else fname
             res = self._spec_result(app, sf)
             depth = self.spec_depth.get(name, 0)
             key = ('unfold', app, st.ver)
-            outer_log = getattr(self, 'read_log', None)
-            if outer_log is not None:
-                outer_log |= set(sf.reads)
             if depth < sf.fuel and key not in self.seq_axioms_done and not getattr(self, 'no_unfold', False):
                 self.seq_axioms_done.add(key)
                 self.spec_depth[name] = depth + 1
                 self.read_log = set()
+                self.spec_stack.append(name)
                 try:
                     body = self.spec_apply(fd, full, sf.ret)
                 finally:
+                    self.spec_stack.pop()
                     self.spec_depth[name] = depth
                     mine = self.read_log
                     self.read_log = outer_log
-                missing = sorted(mine - set(sf.reads))
-                if missing:
-                    # the application term is indexed by the versions of the heaps in `reads`: an undeclared read would
-                    # let one term stand for values in two different heap states
-                    raise Unsupported('specification function %s reads %s, which its reads=%r does not list' % (name, missing, sf.reads), node)
+                self.note_reads(name, mine)
                 st.assume(self._spec_eq(res, body, sf), 'def')
             return res
         finally:
             self.spec_mode = saved_mode
+
+    def family_classes(self, fam):
+        f = self.repo.family(self.repo.resolve_class(fam) or fam)
+        return [c for c in self.repo.classes if self.repo.family(c) == f]
+
+    def note_reads(self, name, keys):
+        cur = self.spec_direct.setdefault(name, set())
+        if not keys <= cur:
+            cur |= keys
+            self.spec_gen += 1          # terms named before this point may lack a version index: the path is redone
+
+    def reads_of(self, name):
+        """heaps a recursive specification function depends on: its own reads and those of the functions it applies"""
+        out, todo, seen = set(), [name], set()
+        while todo:
+            n = todo.pop()
+            if n in seen:
+                continue
+            seen.add(n)
+            out |= self.spec_direct.get(n, set())
+            todo += list(self.spec_calls.get(n, ()))
+        return out
+
+    def discover_reads(self, name, fd, full, sf):
+        """evaluate the body once for its reads only (muted, every assumption and symbol it makes is discarded)"""
+        st = self.st
+        if name in self.spec_stack and self.spec_stack.count(name) >= 2:
+            return
+        saved_log, saved_mute, saved_nounfold = getattr(self, 'read_log', None), st.mute, getattr(self, 'no_unfold', False)
+        npc, nob = len(st.pc), len(st.obligations)
+        dstate = (st.dpos, len(st.dlog), len(st.trace), len(st.decisions))
+        saved_env = st.env
+        saved_done = set(self.seq_axioms_done)
+        saved_depth = dict(self.spec_depth)
+        self.read_log = set()
+        st.mute = True
+        self.no_unfold = True           # nested applications only contribute their (discovered) read sets
+        self.spec_stack.append(name)
+        try:
+            try:
+                self.spec_apply(fd, full, sf.ret)
+            except (Unsupported, PathInfeasible):
+                pass
+        finally:
+            self.spec_stack.pop()
+            mine = self.read_log
+            self.read_log = saved_log
+            st.mute = saved_mute
+            self.no_unfold = saved_nounfold
+            del st.pc[npc:]
+            del st.obligations[nob:]
+            st.dpos = dstate[0]
+            del st.dlog[dstate[1]:]
+            del st.trace[dstate[2]:]
+            del st.decisions[dstate[3]:]
+            st.env = saved_env
+            self.seq_axioms_done = saved_done
+            self.spec_depth = saved_depth
+        self.note_reads(name, mine)
 
     def spec_apply(self, fd, args, ret='any'):
         st = self.st
@@ -532,6 +607,15 @@ class Engine(ValueOps, ExprOps, CallOps, StmtOps):
                     gname, _, gty = it[6:].partition(':')
                     self.ghost_var(gname, gty or 'arr[Int,Int]')
                     self.havoc_heap(['ghost:' + gname])
+                elif it.startswith('heap:') and '@' in it:
+                    # the attribute may change on objects of one class family only (e.g. the parent links of Arguments)
+                    attr, fam = it[5:].split('@', 1)
+                    old_arr = st.heap_arr(attr)
+                    new_arr = st.decls.const('H_' + attr, '(Array Int Val)')
+                    st.heap[attr] = new_arr
+                    st.bump(attr, [self.repo.family(self.repo.resolve_class(fam) or fam)])
+                    st.assume("(forall ((r Int)) (! (=> (not %s) (= (select %s r) (select %s r))) :pattern ((select %s r))))"
+                              % (self.cls_in('r', self.family_classes(fam)), new_arr, old_arr, new_arr), 'wf')
                 elif it.startswith('heap:'):
                     self.havoc_heap([it[5:]])
                 elif it.startswith('fresh:'):
@@ -570,7 +654,7 @@ class Engine(ValueOps, ExprOps, CallOps, StmtOps):
                     ty = self.attr_type(classes, node.attr)
                     fresh = st.decls.const('hv_' + node.attr, 'Val')
                     st.heap[node.attr] = mk_store(st.heap_arr(node.attr), obj.term, fresh)
-                    st.bump(node.attr)
+                    st.bump(node.attr, self.families_of(classes))
                     if ty is not None:
                         self.unbox(fresh, ty)
         finally:
@@ -720,7 +804,18 @@ class Engine(ValueOps, ExprOps, CallOps, StmtOps):
         return st
 
     def verify_function(self, key, max_paths=4000):
-        """-> FunctionResult with all obligations of all paths (not yet discharged)"""
+        """-> FunctionResult with all obligations of all paths (not yet discharged).
+        The read sets of the recursive specification functions are inferred while paths are generated; terms named before
+        a set grew may lack a version index, so the whole function is regenerated until the sets are stable."""
+        for attempt in range(8):
+            gen0 = self.spec_gen
+            res = self._verify_function(key, max_paths)
+            if self.spec_gen == gen0:
+                return res
+        res.unsupported = res.unsupported or 'read sets of the specification functions did not stabilise'
+        return res
+
+    def _verify_function(self, key, max_paths=4000):
         fi = self.repo.functions[key]
         con = self.contracts[key]
         res = FunctionResult(key, fi)
@@ -838,8 +933,12 @@ class Engine(ValueOps, ExprOps, CallOps, StmtOps):
         mod_attr_objs = {}
         whole = set()
         env_saved = st.env
+        famwhole = {}
         for it in con.modifies:
-            if it.startswith('heap:'):
+            if it.startswith('heap:') and '@' in it:
+                a, f = it[5:].split('@', 1)
+                famwhole.setdefault(a, []).append(f)
+            elif it.startswith('heap:'):
                 whole.add(it[5:])
             elif it.startswith('dict(') or it.startswith('list(') or it.startswith('ghost:') or it.startswith('fresh:') or it == 'alloc':
                 continue
@@ -854,6 +953,7 @@ class Engine(ValueOps, ExprOps, CallOps, StmtOps):
             if old is None or old == arr or attr in whole:
                 continue
             excl = [mk_not(mk_eq('r', o)) for o in mod_attr_objs.get(attr, [])]
+            excl += [mk_not(self.cls_in('r', self.family_classes(f))) for f in famwhole.get(attr, [])]
             goal = "(forall ((r Int)) %s)" % mk_implies(mk_and(mk_lt('r', pre.alloc), *excl),
                                                        mk_eq(mk_select(arr, 'r'), mk_select(old, 'r')))
             st.oblige(goal, 'frame: attribute %s unchanged outside modifies' % attr, fi.node.lineno, kind='ensures')
